@@ -1,6 +1,6 @@
 (* Builder/ChangeProofs.v — C05: every successful balancing operation leaves a ledger-balanced builder.
    For an ARBITRARY oracle (type of its state, answers) subject only to the typing premise [oracle_u64]
-   (fee and min-ADA answers are u64, selected UTxO values are well-formed values).
+   (fee and min-ADA answers are u64; what the coin selection adds are well-formed values when the offered UTxOs are).
 
    Inventory
      hoare / rules                 a partial-correctness triple over the model's monad that also carries an invariant
@@ -125,6 +125,8 @@ Proof.
   intros [C Q] Hc Hq. split; [lia|]. intros p n. rewrite Q, Hq. lia.
 Qed.
 
+Definition utxos_wf (l : list (N * value)) : Prop := Forall (fun e : N * value => value_wf (snd e)) l.
+
 (* ------------------------------------------------------------------------------------------- *)
 Section Proofs.
   Context {O : Type}.
@@ -134,7 +136,7 @@ Section Proofs.
   Definition oracle_u64 : Prop :=
     (forall st o v, fst (ask_fee orc st o) = Ok v -> v < two64) /\
     (forall x o v, fst (ask_min_ada orc x o) = Ok v -> v < two64) /\
-    (forall st utxos o, Forall (fun e : N * value => value_wf (snd e)) (fst (fst (ask_select orc st utxos o)))).
+    (forall st utxos o, utxos_wf utxos -> utxos_wf (fst (fst (ask_select orc st utxos o)))).
   Hypothesis OU : oracle_u64.
 
   Notation M := (@M O).
@@ -545,7 +547,7 @@ Section Proofs.
   Qed.
 
   Lemma top_up_last_spec cl nf : value_wf cl ->
-    hoare WF (fun s => s_fee s = Some nf /\ open_balance_fee s cl nf) (top_up_last cl) (fun _ s => balanced s).
+    hoare WF (fun s => s_fee s = Some nf /\ open_balance_fee s cl nf) (top_up_last orc cl) (fun _ s => balanced s).
   Proof.
     intros Wcl. unfold top_up_last. apply hoare_get_bind. intros s0.
     destruct (rev (s_outputs s0)) as [|last before] eqn:E; [apply hoare_fail; discriminate|].
@@ -556,6 +558,7 @@ Section Proofs.
     inversion Fl as [|? ? Wlast _]. subst.
     apply hoare_lift_bind. intros amount Ea.
     destruct (value_checked_add_ok _ _ _ Wlast Wcl Ea) as [Ca [Qa Wa]].
+    eapply hoare_bind with (Q := fun _ s => balanced s); [|intros u; apply output_admissible_spec].
     apply hoare_put. intros s Js [Es [F [C Q]]]. subst s. split.
     - apply WF_set_outputs; [exact Js|]. apply Forall_app. split; [exact Fb|]. constructor; [exact Wa | constructor].
     - exists nf. split; [apply get_fee_if_set_some; exact F|]. split.
@@ -764,8 +767,6 @@ Section Proofs.
   (* ----------------------------------------------------------------------------------------- *)
   (* add_inputs_from_and_change: whatever the selection added (an arbitrary extension of the input set) *)
 
-  Definition utxos_wf (l : list (N * value)) : Prop := Forall (fun e : N * value => value_wf (snd e)) l.
-
   Lemma inputs_insert_forall k v m :
     value_wfb v = true -> forallb (fun e : N * value => value_wfb (snd e)) m = true ->
     forallb (fun e : N * value => value_wfb (snd e)) (inputs_insert k v m) = true.
@@ -823,17 +824,17 @@ Section Proofs.
       + apply hoare_weaken with (P := fun _ => True); [auto|]. exact IH.
   Qed.
 
-  Lemma hoare_askSel_bind {B} J P st utxos (f : list (N * value) * bool -> M B) R :
+  Lemma hoare_askSel_bind {B} J P st utxos (f : list (N * value) * bool -> M B) R : utxos_wf utxos ->
     (forall sel, utxos_wf (fst sel) -> hoare J P (f sel) R) -> hoare J P (bindM (askSel orc st utxos) f) R.
   Proof.
-    intros H s o Js Ps. unfold bindM, askSel. cbn. apply H; auto. destruct OU as [_ [_ U]]. apply U.
+    intros Wu H s o Js Ps. unfold bindM, askSel. cbn. apply H; auto. destruct OU as [_ [_ U]]. apply U. exact Wu.
   Qed.
 
   Theorem select_and_change_balances fuel utxos addr extra : utxos_wf utxos ->
     hoare WF (fun _ => True) (add_inputs_from_and_change orc fuel utxos addr extra) (fun _ s => balanced s).
   Proof.
     intros Wu. unfold add_inputs_from_and_change. apply hoare_get_bind. intros s0.
-    apply hoare_askSel_bind. intros sel Wsel.
+    apply hoare_askSel_bind; [exact Wu|]. intros sel Wsel.
     eapply hoare_bind; [apply add_inputs_spec; exact Wsel|]. intros u. cbn beta.
     apply hoare_if; intros _; [apply hoare_fail; discriminate|].
     apply hoare_get_bind. intros s1.
@@ -854,6 +855,7 @@ Section Proofs.
   Proof.
     unfold validate_fee. apply hoare_get_bind. intros s0.
     destruct (get_fee_if_set s0); [|apply hoare_fail; discriminate].
+    apply hoare_if; intros _; [apply hoare_fail; discriminate|].
     apply hoare_askF_bind. intros mf _. apply hoare_if; intros _; [apply hoare_fail; discriminate|].
     apply hoare_ret'. intros s _ [_ Ps]. exact Ps.
   Qed.
